@@ -89,6 +89,7 @@ pub struct Ev {
     pub reply: Option<Reply>,
     pub obs: Vec<(String, Obs)>,
     pub failed: bool,
+    pub script: Script,
 }
 
 thread_local! {
@@ -208,6 +209,7 @@ fn enter(
         reply,
         obs: vec![],
         failed: false,
+        script: script.clone(),
     };
     // reserve the slot first so that the trace is in entry order (depth-first)
     let idx = TRACE.with(|t| {
